@@ -8,7 +8,7 @@
 //!  - a break ends the connection: nothing from it is delivered afterwards, one Reconnecting notice follows, then the
 //!    next connection; at the transformer the break is reported as exactly one terminal error,
 //!  - gap-free in-order delivery preceded by any number of strictly older messages never errors.
-use crate::{eng::Rng, report};
+use crate::{rng::Rng, report};
 use barter_data::{
     error::DataError,
     event::MarketEvent,
